@@ -802,8 +802,13 @@ func OrExpr(query *Query, current Map, expr *sqlparser.OrExpr, opts ...ExprOptio
 }
 
 func ComparisonExpr(query *Query, current Map, expr *sqlparser.ComparisonExpr, opts ...ExprOption) (bool, error) {
+	// Backward Navigation: the marker goes into a shallow copy of the row, the
+	// row itself may be the caller's own map and shared with other queries
+	current = maps.Clone(current)
+	if current == nil {
+		current = make(Map)
+	}
 	current["<-"] = query.data
-	defer delete(current, "<-")
 	left, err := Expr(query, current, expr.Left, opts...)
 	if err != nil {
 		return false, err
